@@ -285,6 +285,37 @@ def _polyfile_case(args):
                             PF + ".import_all", "roundtrip-differs", case,
                             f"filter {pf.unique_id}: " + "; ".join(probs),
                             {"variant": "polyfile"}))
+                # the same filters stored in descending order of their
+                # identifiers, and a removed filter loaded again: an
+                # identifier that is free must be kept
+                PolygonFilter.clear_all_filters()
+                pfs = [PolygonFilter(**pool[i]) for i in sub]
+                ids = [pf.unique_id for pf in pfs]
+                p.unlink()
+                for pf in sorted(pfs, key=lambda f: -f.unique_id):
+                    pf.save(p)
+                PolygonFilter.clear_all_filters()
+                got = [pf.unique_id for pf in PolygonFilter.import_all(p)]
+                if sorted(got) != sorted(ids):
+                    out.append(violation(
+                        PF + ".import_all", "wrong-identifiers", case,
+                        f"file written in descending id order: {got} != "
+                        f"{sorted(ids, reverse=True)}",
+                        {"variant": "descending-file"}))
+                PolygonFilter.clear_all_filters()
+                pfs = [PolygonFilter(**pool[i]) for i in sub]
+                ids = [pf.unique_id for pf in pfs]
+                p.unlink()
+                PolygonFilter.save_all(p)
+                low = min(ids)
+                PolygonFilter.remove(low)
+                again = PolygonFilter(filename=p, fileid=ids.index(low))
+                if again.unique_id != low:
+                    out.append(violation(
+                        PF + "._set_unique_id", "wrong-identifiers", case,
+                        f"filter {low} removed and loaded again from the "
+                        f"file: identifier {again.unique_id}",
+                        {"variant": "remove-then-load"}))
             except BaseException as e:
                 out.append(violation(
                     PF + ".import_all", "exception", case,
